@@ -2,6 +2,8 @@ package gen
 
 import (
 	"fmt"
+	"path/filepath"
+	"runtime"
 	"strings"
 
 	"github.com/cockroachdb/errors/errbase"
@@ -115,4 +117,55 @@ func ModelIs(vis []VNode, r VNode, methods bool) bool {
 // references).
 func RefsOf(spec *Spec) ([]VNode, error) {
 	return Visible(spec, Build(spec))
+}
+
+// BarrierTexts lists the Error() texts of the visible barrier layers
+// of the built error, in pre-order.
+func BarrierTexts(spec *Spec, e error) []string {
+	var texts []string
+	if vis, err := Visible(spec, e); err == nil {
+		for _, v := range vis {
+			if v.Layer().Typ == "*barriers.barrierErr" {
+				texts = append(texts, v.Text())
+			}
+		}
+	}
+	return texts
+}
+
+// ModelSource is the documented one-line source of an error: file
+// (base name) and line of the first frame recorded by the innermost
+// layer of the single-cause chain that recorded any frame - read from
+// the program counters of the locally built error and resolved by the
+// Go runtime. known is false when the model cannot tell (a stack layer
+// that does not expose its program counters).
+func ModelSource(spec *Spec, local error) (file string, line int, has, known bool) {
+	ls := Chain(spec)
+	var objs []error
+	for x := local; x != nil; x = errbase.UnwrapOnce(x) {
+		objs = append(objs, x)
+	}
+	if len(objs) != len(ls) {
+		return "", 0, false, false
+	}
+	inner := -1
+	for i, l := range ls {
+		if l.Stack && l.Spec.K != "stackdeep" {
+			inner = i
+		}
+	}
+	if inner < 0 {
+		return "", 0, false, true
+	}
+	sp, ok := objs[inner].(errbase.StackTraceProvider)
+	if !ok || len(sp.StackTrace()) == 0 {
+		return "", 0, false, false
+	}
+	pc := uintptr(sp.StackTrace()[0]) - 1
+	f := runtime.FuncForPC(pc)
+	if f == nil {
+		return "", 0, false, false
+	}
+	rf, rl := f.FileLine(pc)
+	return filepath.Base(rf), rl, true, true
 }
